@@ -225,7 +225,11 @@ def inline_new_functions(raw):
         if b["id"] not in still_called and any(c == b["id"] for (_, c) in done):
             hosts_of = sorted({h for (h, c) in done if c == b["id"]})
             if b["id"] in parents and len(hosts_of) != 1:
-                continue            # a closure literal shared by several hosts: keep the helper
+                # a closure literal shared by several hosts: the helper stays as the closures'
+                # parent, but its code lives in the callers now: no rule looks at it
+                b["dead_helper"] = True
+                b["in_test"] = True
+                continue
             drop.add(b["id"])
             # the helper's closures now belong to the function it was inlined into
             for cb in raw["bodies"]:
@@ -422,11 +426,15 @@ def _closure_id_of(body, op):
         return _CLOSURE_BY_TYPE[ty["s"].lstrip("&").replace("mut ", "").strip()]
     if ty["s"].startswith("&"):
         cur = op["place"]["local"]
-        for _ in range(4):
+        for _ in range(6):
+            if body["locals"][cur]["ty"].get("closure"):
+                return body["locals"][cur]["ty"]["closure"]
             d = _single_assign(body, cur)
             if d is None or d[0] != "assign":
                 return None
             rv = d[1]
+            if rv["k"] == "aggregate" and rv["kind"].get("k") == "closure":
+                return rv["kind"].get("body")
             if rv["k"] == "ref" and not [e for e in rv["place"]["proj"] if e["k"] != "deref"]:
                 t2 = body["locals"][rv["place"]["local"]]["ty"]
                 if t2.get("closure"):
@@ -806,10 +814,12 @@ def desugar_combinators(raw):
                 hosts.add(body["id"])
                 n_done += 1
             elif path in ("std::ops::FnMut::call_mut", "std::ops::Fn::call", "std::ops::FnOnce::call_once") and len(args) == 2 \
-                    and (t["callee"].get("self_ty") or {}).get("closure") and args[1]["k"] in ("copy", "move") and not args[1]["place"]["proj"]:
+                    and ((t["callee"].get("self_ty") or {}).get("closure") or _closure_id_of(body, args[0])) \
+                    and args[1]["k"] in ("copy", "move") and not args[1]["place"]["proj"]:
                 # a local closure called directly (`let mut section = |xs| {..}; section(a); section(b)`):
-                # each call is the closure's body with the tuple of arguments spread
-                cid = t["callee"]["self_ty"]["closure"]
+                # each call is the closure's body with the tuple of arguments spread.  (Also a callable
+                # parameter of an inlined helper, once the closure handed in is known.)
+                cid = (t["callee"].get("self_ty") or {}).get("closure") or _closure_id_of(body, args[0])
                 cb = bodies.get(cid)
                 if cb is None or dest["proj"]:
                     continue
